@@ -605,6 +605,10 @@ def run(ctx):
     from props import C08_more
     C08_more.run_more(ctx)
     # <<< a_c08
+    # >>> w_buf (wave 5): buffer.rs at storage level (shared with C07; own seed), see props/bufstore.py
+    from props import bufstore
+    bufstore.run(ctx, "C08", 3000, 40000)
+    # <<< w_buf
 
 
 def search(ctx):
